@@ -390,3 +390,12 @@ Proof. vm_compute. reflexivity. Qed.
 (* the conditions on observed histories reject the lost update and accept the same history with the entry found *)
 Example C17_history_examples : lin_ok lost_history = false /\ lin_ok found_history = true.
 Proof. exact lin_ok_examples. Qed.
+
+(* the conditions are necessary at small scope: all 32768 histories of three operations (sets, lookups, lookups of a
+   root the node knows, cleans; two roots; intervals overlapping up to two neighbours) and all 104976 of four
+   operations on one root that come from a sequential run are accepted *)
+Example C17_history_conditions_necessary_small_scope :
+  forallb (fun w => lin_ok (hist_of [] 0 w)) (words 3) = true /\
+  forallb (fun w => lin_ok (hist_of [] 0 w)) (words4 4) = true.
+Proof. exact history_conditions_small_scope_lemma. Qed.
+
